@@ -5,7 +5,7 @@ From Coq Require Import List Arith ZArith Ring Lia Reals RealField.
 From TLV Require Import Base.Shape Base.PyList Base.Tensor Base.BigSum Base.Ops Model.Base Model.Factorized
   Proofs.FactorizedProofs Proofs.FactorizedProofs2 Proofs.FactorizedProofs3 Proofs.FactorizedProofs4
   Proofs.FactorizedProofs5 Proofs.FactorizedProofs6 Proofs.FactorizedProofs7 Proofs.FactorizedProofs8
-  Proofs.FactorizedProofs9 Proofs.FactorizedProofs10 Proofs.FactorizedProofs11 Proofs.FactorizedProofs12.
+  Proofs.FactorizedProofs9 Proofs.FactorizedProofs10 Proofs.FactorizedProofs11 Proofs.FactorizedProofs12 Proofs.FactorizedProofs13.
 Import ListNotations.
 
 Definition is_ring {F : Type} (Op : fops F) : Prop :=
@@ -315,3 +315,116 @@ Theorem C03_parafac2_validated : forall (F : Type) (Op : fops F), is_ring Op ->
         if j <? nth 0 (nth i shps []) 0 then p2_entry F Op w A B C (nth i ps (mk [] [])) R R i j k else f0 Op.
 Proof. exact parafac2_validated. Qed.
 Print Assumptions C03_parafac2_validated.
+
+(* ------------------------------------------------------------------ late rejection of a non-square PARAFAC2 B *)
+(* _validate_parafac2_tensor only looks at the column count of B.  A B with q <> R rows is accepted, but it is never silently
+   reconstructed: every slice / slices / tensor / unfolded / vec view raises (the product P_i B is undefined) -- for every
+   number I >= 1 of slices.  Triage: not a violation of C03 (an error IS raised, only late); documented here as a theorem. *)
+Theorem C03_parafac2_nonsquare_B_rejected : forall (F : Type) (Op : fops F)
+  (w : option (tensor F)) (A B C : tensor F) (ps : list (tensor F)) (I q R : nat) (Js : list nat),
+  shape A = [I; R] -> shape B = [q; R] -> q <> R -> 0 < I ->
+  Forall2 (fun (P : tensor F) J => shape P = [J; R]) ps Js ->
+  (forall i, parafac2_to_slice Op w [A; B; C] ps i = Err) /\
+  parafac2_to_slices Op w [A; B; C] ps = Err /\
+  parafac2_to_tensor Op w [A; B; C] ps = Err /\
+  (forall m, parafac2_to_unfolded Op w [A; B; C] ps m = Err) /\
+  parafac2_to_vec Op w [A; B; C] ps = Err.
+Proof. exact parafac2_nonsquare_B_rejected. Qed.
+Print Assumptions C03_parafac2_nonsquare_B_rejected.
+Example C03_nonsquare_B_accepted :
+  validate_parafac2 Zops None [mk [1; 1] [2%Z]; mk [2; 1] [1; 1]%Z; mk [2; 1] [1; -1]%Z] [mk [2; 1] [0; 1]%Z] = Ok ([[2; 2]], 1).
+Proof. exact nonsquare_B_accepted. Qed.
+
+(* ------------------------------------------------------------------ every accepted CP tensor, incl. 1-D (rank-1) factors *)
+(* the reconstructions view 1-D factors as single columns (repaired in /repo by 148e558): EVERY (weights, factors) accepted by
+   _validate_cp_tensor -- matrix factors or, for rank 1, vectors -- has all its views; the dense view has the reported shape and
+   is the defining sum of outer products; unfolded / vec are those of the dense view; cp_norm^2 is its sum of squares *)
+Theorem C03_cp_accepted_reconstructs : forall (F : Type) (Op : fops F), is_ring Op ->
+  forall (w : option (tensor F)) (fs : list (tensor F)) (shp : list nat) (R m : nat),
+  validate_cp w fs = Ok (shp, R) -> m < length fs -> 0 < prod shp ->
+  (exists t, cp_to_tensor Op w fs None = Ok t /\ shape t = shp /\
+             forall idx, inb shp idx -> get (f0 Op) t idx = cp_entry F Op w (as_matrices fs) R idx) /\
+  (exists t u, cp_to_tensor Op w fs None = Ok t /\ cp_to_unfolded Op w fs m = Ok u /\ unfold (f0 Op) t m = Ok u) /\
+  (exists t v, cp_to_tensor Op w fs None = Ok t /\ cp_to_vec Op w fs = Ok v /\ tensor_to_vec t = Ok v) /\
+  cp_normsq Op w fs =
+    Ok (sum_idx F (f0 Op) (fadd Op) shp (fun idx => fmul Op (cp_entry F Op w (as_matrices fs) R idx) (cp_entry F Op w (as_matrices fs) R idx))).
+Proof. exact cp_accepted_reconstructs. Qed.
+Print Assumptions C03_cp_accepted_reconstructs.
+(* the former defect (1-D factors accepted but not reconstructable) as an executed example *)
+Example C03_cp_1d_factors_example :
+  validate_cp None [mk [3] [1; 2; 3]%Z; mk [2] [2; -1]%Z] = Ok ([3; 2], 1) /\
+  cp_to_tensor Zops None [mk [3] [1; 2; 3]%Z; mk [2] [2; -1]%Z] None = Ok (mk [3; 2] [2; -1; 4; -2; 6; -3]%Z) /\
+  cp_to_unfolded Zops None [mk [3] [1; 2; 3]%Z; mk [2] [2; -1]%Z] 1 = Ok (mk [2; 3] [2; 4; 6; -1; -2; -3]%Z) /\
+  cp_normsq Zops None [mk [3] [1; 2; 3]%Z; mk [2] [2; -1]%Z] = Ok 70%Z.
+Proof. exact cp_1d_factors_example. Qed.
+
+(* ------------------------------------------------------------------ wrapper objects (CPTensor, TuckerTensor, TTTensor, ...) *)
+(* object model: the constructor validates once and caches (shape, rank); _validate_*(obj) returns the cache; the functions
+   unpack the stored contents; __setitem__ replaces contents and leaves the cache alone *)
+(* tuple input and wrapper-object input give the same views (weights=None is stored as ones(rank): harmless) *)
+Theorem C03_cp_tuple_vs_wrapper : forall (F : Type) (Op : fops F), is_ring Op ->
+  forall (w : option (tensor F)) (fs : list (tensor F)) (o : cp_obj),
+  cp_new Op w fs = Ok o -> Forall (@wf F) fs ->
+  (forall mask, cpo_to_tensor Op o mask = cp_to_tensor Op w fs mask) /\
+  (forall m, cpo_to_unfolded Op o m = cp_to_unfolded Op w fs m) /\
+  cpo_to_vec Op o = cp_to_vec Op w fs /\
+  cpo_normsq Op o = cp_normsq Op w fs /\
+  cpo_validate o = validate_cp w fs.
+Proof. exact cp_tuple_vs_wrapper. Qed.
+Print Assumptions C03_cp_tuple_vs_wrapper.
+
+(* as long as the cache is what validation of the stored contents returns, every view of the object is the view of its contents *)
+Theorem C03_cp_obj_views_partial : forall (F : Type) (Op : fops F) (o : cp_obj), validate_cp (cpo_weights o) (cpo_factors o) = Ok (cpo_shape o, cpo_rank o) ->
+  (forall mask, cpo_to_tensor Op o mask = cp_to_tensor Op (cpo_weights o) (cpo_factors o) mask) /\
+  (forall m, cpo_to_unfolded Op o m = cp_to_unfolded Op (cpo_weights o) (cpo_factors o) m) /\
+  cpo_to_vec Op o = cp_to_vec Op (cpo_weights o) (cpo_factors o) /\
+  cpo_normsq Op o = cp_normsq Op (cpo_weights o) (cpo_factors o) /\
+  cpo_validate o = validate_cp (cpo_weights o) (cpo_factors o).
+Proof. exact cp_obj_views. Qed.
+Print Assumptions C03_cp_obj_views_partial.
+
+(* the cache stays valid under construction and under every __setitem__ that stores arrays of the shapes they replace *)
+Theorem C03_cp_cache_valid : forall (F : Type) (Op : fops F)
+  (w : option (tensor F)) (fs : list (tensor F)) (o : cp_obj), cp_new Op w fs = Ok o ->
+  cp_consistent F o /\
+  forall (w' : option (tensor F)) (fs' : list (tensor F)),
+    option_map (@shape F) w' = option_map (@shape F) (cpo_weights o) -> map (@shape F) fs' = map (@shape F) (cpo_factors o) ->
+    cp_consistent F (cp_set_factors (cp_set_weights o w') fs').
+Proof. exact cp_cache_valid. Qed.
+Print Assumptions C03_cp_cache_valid.
+
+Theorem C03_chain_cache_valid : forall (F : Type) (cs : list (tensor F)) (o : ch_obj),
+  (ch_new validate_tt cs = Ok o -> ch_consistent F validate_tt o /\ cho_cores o = cs) /\
+  (ch_new validate_tr cs = Ok o -> ch_consistent F validate_tr o /\ cho_cores o = cs) /\
+  (ch_new validate_ttm cs = Ok o -> ch_consistent F validate_ttm o /\ cho_cores o = cs) /\
+  (forall validate, (validate = validate_tt \/ validate = validate_tr \/ validate = validate_ttm) ->
+     forall k c o', ch_consistent F validate o -> shape c = shape (nth k (cho_cores o) (mk [] [])) -> ch_set o k c = Ok o' ->
+     ch_consistent F validate o').
+Proof. exact chain_cache_valid. Qed.
+Print Assumptions C03_chain_cache_valid.
+
+Theorem C03_tucker_cache_valid : forall (F : Type) (core : tensor F) (fs : list (tensor F)) (o : tk_obj),
+  tucker_new core fs = Ok o ->
+  tk_consistent F o /\ tko_core o = core /\ tko_factors o = fs /\
+  forall core' fs', shape core' = shape (tko_core o) -> map (@shape F) fs' = map (@shape F) (tko_factors o) ->
+    tk_consistent F (tk_set_factors (tk_set_core o core') fs').
+Proof. exact tucker_cache_valid. Qed.
+Print Assumptions C03_tucker_cache_valid.
+
+(* genuine defect (known finding): __setitem__ with an array of ANOTHER shape leaves the cache stale -- CPTensor then reports the old
+   shape and to_tensor folds the new data into the old shape (a wrong tensor, silently); TTTensor reports a shape that is not the
+   shape of its reconstruction *)
+Theorem C03_cp_setitem_stale_refuted :
+  exists (o o' : cp_obj (F:=Z)) t t',
+    cp_new Zops None [sA; sB] = Ok o /\ o' = cp_set_factors o [sB; sA] /\
+    validate_cp (cpo_weights o') (cpo_factors o') = Ok ([3; 2], 2) /\ cpo_validate o' = Ok ([2; 3], 2) /\
+    cpo_to_tensor Zops o' None = Ok t /\ cp_to_tensor Zops (cpo_weights o') (cpo_factors o') None = Ok t' /\
+    shape t = [2; 3] /\ shape t' = [3; 2] /\ t <> t'.
+Proof. exact cp_setitem_stale_refuted. Qed.
+Print Assumptions C03_cp_setitem_stale_refuted.
+Theorem C03_tt_setitem_stale_refuted :
+  exists (o o' : ch_obj (F:=Z)) t,
+    ch_new validate_tt [mk [1; 2; 1] [1; 2]%Z] = Ok o /\ ch_set o 0 (mk [1; 3; 1] [1; 2; 3]%Z) = Ok o' /\
+    cho_shape o' = [2] /\ tt_to_tensor Zops (cho_cores o') = Ok t /\ shape t = [3].
+Proof. exact tt_setitem_stale_refuted. Qed.
+Print Assumptions C03_tt_setitem_stale_refuted.
